@@ -348,6 +348,20 @@ def main():
 
     if check_ok and harness_ok and evaluations == 0 and not cfg.get("no_correspondence"):
         broken.append({"kind": "broken-correspondence", "detail": "the harness produced no cases for " + prop})
+    # 3b. optional extra command of the thorough tier (e.g. the sanitizer run of C08):
+    #     <cmd> <repo> <rundir> <seed> <tier>; exit 0 = clean, 1 = violation (concrete), anything else = skipped
+    extra_cmd = cfg.get("thorough_extra_cmd")
+    if check_ok and tier == "thorough" and extra_cmd:
+        rcx, outx = sh([os.path.join(ROOT, extra_cmd), REPO, rundir, str(seed), tier], cwd=ROOT, timeout=3600)
+        if rcx == 1:
+            harness_ok = False
+            broken.append({"kind": "broken-correspondence", "detail": "thorough extra command %s reported a violation" % extra_cmd,
+                           "error": outx[-3000:], "concrete": True})
+        elif rcx != 0:
+            notes.append("thorough extra %s skipped (rc=%d): %s" % (extra_cmd, rcx, outx.strip()[-300:]))
+        else:
+            notes.append("thorough extra %s: %s" % (extra_cmd, outx.strip()[-300:]))
+
     # 4. verdict
     known = load_known(prop)
     known_hits, new_fail = [], []
